@@ -33,7 +33,7 @@ from vlib import c10_gen as G
 from vlib import formats as F
 from vlib.denote import NAN, NINF, NZERO, PINF, PZERO, den, pow2, show
 from vlib.load import load_module, unload
-from vlib.oracle_round import MODES, Model, check_outcome, expect, floor_log2, member
+from vlib.oracle_round import MODES, Model, expect, floor_log2, member
 from vlib.runner import Result, h64
 
 PROPERTY = 'C10'
@@ -572,6 +572,21 @@ def run_context(res: Result, spec, tier, seed):
             if g is None:
                 continue
             check_rewritten(res, P, m, g, [step], where, ops_all, info, ir, car_of)
+
+        # ---- elim_round / insert_round composed directly on a lowered program (its context constructors hold arithmetic)
+        if family(kind) == 'float' or kind in ('mpfixed', 'mpbfixed'):
+            first = 'f2f' if family(kind) == 'float' else 'unz'
+            g1 = transform(res, P, P.fn, first, 'none', [])
+            if g1 is not None:
+                masked1 = None
+                for tail_step in ('er', 'ir'):
+                    irn = 'FP64' if tail_step == 'ir' else None
+                    g2 = transform(res, P, g1, tail_step, 'none', [first], fp.FP64 if irn else None, irn)
+                    if g2 is not None:
+                        if masked1 is None:      # a difference the first step made is its own bucket (checked above), not the tail's
+                            masked1 = {(d, car_of(d)) for d in ops_small
+                                       if P.orig(d, car_of(d), m)[0][:2] != observe(g1, G.carrier(d, car_of(d)))[:2]}
+                        check_rewritten(res, P, m, g2, [first, tail_step], 'none', ops_small, info, irn, car_of, masked1)
 
         # ---- the other spelling and the other statement form: boundary operands only
         other_form = 'return' if primary_form == 'assign' else 'assign'
